@@ -143,6 +143,9 @@ func (c *Cluster) doExt(s Step, out *Outcome) bool {
 				t.CreateTime, t.ExpirationTime = ex.CreateTime, ex.ExpirationTime
 			}
 			t.ModifyIndex = resolveIdx(o.Idx, cur)
+			if o.Name == "deadlink" {
+				t.Policies = []structs.ACLTokenPolicyLink{{ID: PolicyUUID(99)}}
+			}
 			t.SetHash(true)
 			toks = append(toks, t)
 		}
